@@ -232,6 +232,40 @@ $GEN{$NG(k int)}{int}{
 	}
 	$RET
 }`, entries: []*Entry{drive("$NG", "int", 1, nil)}},
+	// three-clause loops whose initialiser is a plain assignment to an existing variable (not :=, not a yield), with the
+	// delegation in the body or in the post statement
+	{name: "yieldfrom-in-loops-with-assignment-initialiser", tags: []string{"yieldfrom"}, decls: `
+$GEN{$NX(a int)}{int}{
+	$YIELD{a}
+	$YIELD{a + 1}
+	$RET
+}
+
+$GEN{$NG(k int)}{int}{
+	i := 9
+	for i = 0; i < 2; i++ {
+		$YFROM{$NX(10 * i)}
+	}
+	$YIELD{-1}
+	for i = k; i < k+2; i++ {
+		$YFROM{$NX(100 * i)}
+	}
+	j := 7
+	for j = 2; j < 4; $YFROM{$NX(10 * j)} {
+		j++
+	}
+	$YIELD{j}
+	type node struct {
+		v    int
+		next *node
+	}
+	head := &node{1, &node{2, &node{k, nil}}}
+	var cur *node
+	for cur = head; cur != nil; cur = cur.next {
+		$YFROM{$NX(cur.v)}
+	}
+	$RET
+}`, entries: []*Entry{drive("$NG", "int", 1, nil)}},
 	{name: "yieldfrom-as-initialiser-last-statement", tags: []string{"yieldfrom"}, decls: `
 $GEN{$NX(a int)}{int}{
 	$YIELD{a}
